@@ -1,5 +1,11 @@
-"""C08-self (AST): filled in with the E1 rules."""
+"""C08-self / C08-merge / C08-reserve (AST, CFG): the run-time half's structural obligations."""
+from .. import crules
 
 
 def check(run):
-    return
+    r1, r2 = "C08-merge", "C08-reserve"
+    run.rule(r1, "augment_classes records every listed base of every registration record (only the class itself is dropped); an unknown base is reported", floor=3)
+    run.rule(r2, "lattice slot allocation reserves every slot taken in all bases and covariant classes unconditionally (no two parameters share a cell)", floor=14)
+    ast, _ = crules.unit(run, ndebug=True)
+    crules.merge_rules(run, r1, None, ast)
+    crules.reserve_rules(run, r2, ast)
